@@ -2,7 +2,7 @@ import RimeModel.Basic.Hex
 import RimeModel.C07.Translation
 /-! line protocol for C07 (see checks/C07.py).
   table / nsyl n / syl id hex / e index extra texthex f32bits / endtable
-  cfg <script|table> <completion> <delims hex> <sortWords>
+  cfg <script|table> <completion> <delims hex>
   in hex / g interp inputlen edgeStarts / gi start syll end type credbits / sent type start end texthex /
   pv len sylls / px len sylls / go
 → lk p / L end texthex code matching remaining m e / c type start end texthex / endin
@@ -36,7 +36,6 @@ structure St where
   table : Table := { head := [] }
   kind : String := "script"
   completion : Bool := false
-  sortWords : Bool := false
   delims : Bytes := []
   input : Bytes := []
   interp : Nat := 0
@@ -89,7 +88,7 @@ def runInput (st : St) (out : IO.FS.Stream) : IO Unit := do
     for c in distinct [] (scriptTranslation st.table g 0 st.inputLen st.completion st.sentence) do
       out.putStrLn (showCand c)
   else
-    for c in distinct [] (tableTranslation st.sortWords st.table st.syllabary st.delims st.input 0 st.completion st.exactKey st.expansion.reverse) do
+    for c in distinct [] (tableTranslation st.table st.syllabary st.delims st.input 0 st.completion st.exactKey st.expansion.reverse) do
       out.putStrLn (showCand c)
   out.putStrLn "endin"
 
@@ -105,8 +104,8 @@ partial def loop (h : IO.FS.Stream) (out : IO.FS.Stream) (st : St) : IO Unit := 
   | ["endtable"] =>
     out.putStrLn s!"table {st.syllabary.length} {st.rows.length}"
     loop h out { st with table := build id st.syllabary.length st.rows.reverse }
-  | ["cfg", kind, comp, delims, sw] =>
-    loop h out { st with kind := kind, completion := comp == "1", delims := (Hex.decode delims).getD [], sortWords := sw == "1" }
+  | ["cfg", kind, comp, delims] =>
+    loop h out { st with kind := kind, completion := comp == "1", delims := (Hex.decode delims).getD [] }
   | ["in", hx] =>
     loop h out { st with input := (Hex.decode hx).getD [], gi := [], sentence := none, exactKey := none, expansion := [],
                          interp := 0, inputLen := 0, edgeStarts := 0 }
